@@ -662,11 +662,23 @@ pub fn supervise<P: Prop>(
     if agg.samples.is_empty() {
         agg.samples = std::mem::take(&mut agg.fallback_samples);
     }
+    let rule_text = {
+            let mut r = P::rule().to_string();
+            if P::lanes(tier).iter().any(|l| l.name == "large") && !r.contains("ane large") {
+                r.push_str(
+                    " Lane large: the same generator with a per-case size multiplier (10 in 60%, 50 in \
+                     30%, 250 in 10% of the cases) on every generated length, given to one dimension \
+                     where several multiply, plus hand-made shapes beyond 2^8 / 2^16 (tables, items, \
+                     sources, lines, repetitions; DESIGN.md 13.3).",
+                );
+            }
+            r
+    };
     let mut coverage = json!({
         "evaluations": evaluations,
         "distinct_cases": agg.all_hashes.len(),
         "distinct_nontrivial": distinct_nontrivial,
-        "rule": P::rule(),
+        "rule": rule_text,
         "samples": agg.samples,
         "lanes": lanes_json,
         "classes_observed": agg.tags,
